@@ -950,7 +950,8 @@ def register_overrides(reg):
         # ... and _revert (real code) with the returned values restores the object
         I.run_function(I.find_method(repo_class(f"{OT}:Constructible"), "_revert"), [self, old], {}, None)
         for p in PROPS:
-            I.eng.check(f"{name}#ensures.then_revert_restores[{p}]", compare("==", self.fields[p], self.orig[p]))
+            v = self.fields[p]
+            I.eng.check(f"{name}#ensures.then_revert_restores[{p}]", compare("==", v, self.orig[p]) if isinstance(v, (SV, int, float)) else False)
 
     reg.add(
         C.Contract(
